@@ -343,6 +343,8 @@ def find_reasonable_step_size(
     integrator, parameters, hamiltonian, mass_matrix, inverse_mass_matrix
 ):
     direction_threshold = math.log(0.8)
+    # the search moves the parameters: put them back when it is over
+    initial_tensors = [parameter.tensor.detach().clone() for parameter in parameters]
     r = hamiltonian.sample_momentum(mass_matrix)
     ham = hamiltonian(momentum=r, inverse_mass_matrix=inverse_mass_matrix)
 
@@ -369,6 +371,9 @@ def find_reasonable_step_size(
             break
         else:
             integrator.step_size = integrator.step_size * (2.0**direction)
+
+    for parameter, tensor in zip(parameters, initial_tensors):
+        parameter.tensor = tensor
 
 
 class WarmupAdaptation(Adaptor):
